@@ -740,13 +740,13 @@ Definition w_entity_change : c09case :=
                IBatch [MOp (SNodes 1 [sn 1 2 (D + 7000) 3])]; IBatch [MCompute]; ICheck].
 Lemma holds_entity_change : spec_C09 w_entity_change (run_C09 w_entity_change) = true /\ known_C09 w_entity_change = [].
 Proof. vm_compute. split; reflexivity. Qed.
-(* 7: an edge tombstone replaced by one for the same edge and instant under another source entity *)
+(* 7, repaired (de0967d): an edge tombstone replaced by one for the same edge and instant under another source entity *)
 Definition etomb (ent sg : N) : edel :=
   {| ed_room := 1; ed_edge := {| e_src := 1; e_ent := ent; e_label := 1; e_dest := 2; e_cdate := 1500 |}; ed_date := 2000; ed_sig := sg |}.
 Definition w_edge_tombstone : c09case :=
   CDaily 1000 [IBatch [MOp (SDelEdges [etomb 1 1])]; IBatch [MCompute]; ICheck;
                IBatch [MOp (SDelEdges [etomb 2 2])]; IBatch [MCompute]; ICheck].
-Lemma refuted_edge_tombstone : spec_C09 w_edge_tombstone (run_C09 w_edge_tombstone) = false /\ known_C09 w_edge_tombstone = [7].
+Lemma holds_edge_tombstone : spec_C09 w_edge_tombstone (run_C09 w_edge_tombstone) = true /\ known_C09 w_edge_tombstone = [].
 Proof. vm_compute. split; reflexivity. Qed.
 Lemma refuted_history :
   spec_C09 w_history_onepass (run_C09 w_history_onepass) = true /\ known_C09 w_history_onepass = [] /\
@@ -956,7 +956,7 @@ Lemma put_edel_sigs : forall t l k, key_eqb (edel_key t) k = false ->
   filter (fun d => key_eqb (edel_key d) k) (put_edel t l) = filter (fun d => key_eqb (edel_key d) k) l.
 Proof.
   intros t l k Hk Hd. unfold put_edel. rewrite filter_app. cbn [filter]. rewrite Hk, app_nil_r.
-  f_equal. clear Hk. induction l as [|d l IH]; [reflexivity|]. cbn [filter].
+  f_equal. clear Hk. induction l as [|d l IH]; [reflexivity|]. cbn [filter]. unfold edel_pk at 1.
   assert (E : Z.eqb (ed_date d) (ed_date t) = false) by (apply Z.eqb_neq; apply Hd; left; reflexivity).
   rewrite E, andb_false_r. cbn [andb negb]. rewrite IH; [reflexivity|]. intros x Hx; apply Hd; right; exact Hx.
 Qed.
@@ -990,4 +990,152 @@ Proof.
   - cbn [fst snd]. apply uncovered_intro. intros k Hk.
     unfold content, sigs. cbn [nodes ndels edels set_tables]. f_equal. f_equal. f_equal. f_equal.
     apply Hnodes. exact Hk.
+Qed.
+
+(* class 7, repaired (de0967d): a peer's edge tombstones mark the day of every entry they replace —
+   whatever source entity it was recorded under — and their own: unconditionally *)
+Lemma put_edel_sigs_marked : forall t l k, key_eqb (edel_key t) k = false ->
+  key_mem k (map edel_key (filter (edel_pk t) l)) = false ->
+  filter (fun d => key_eqb (edel_key d) k) (put_edel t l) = filter (fun d => key_eqb (edel_key d) k) l.
+Proof.
+  intros t l k Hk Hm. unfold put_edel. rewrite filter_app. cbn [filter]. rewrite Hk, app_nil_r.
+  apply filter_filter_same. intros d Hin Hd.
+  destruct (edel_pk t d) eqn:E; [|reflexivity]. exfalso.
+  assert (Hin' : In d (filter (edel_pk t) l)) by (apply filter_In; split; assumption).
+  pose proof (key_mem_map_false edel_key k _ d Hm Hin') as F. congruence.
+Qed.
+Lemma sdel_edge1_covers : forall s ms t,
+  exists new, snd (sdel_edge1 (s, ms) t) = ms ++ new /\ step_covers s (fst (sdel_edge1 (s, ms) t)) new.
+Proof.
+  intros s ms t. unfold sdel_edge1. eexists. split; [cbn [snd]; reflexivity|]. cbn [fst]. intros k Hk.
+  apply key_mem_app_false in Hk as [Hrep Hk]. apply key_mem_cons_false in Hk as [Hk _].
+  unfold content, sigs. cbn [nodes ndels edels set_tables]. f_equal. f_equal. f_equal. f_equal.
+  apply put_edel_sigs_marked; assumption.
+Qed.
+Theorem edge_tombstone_covers : forall s ts,
+  let r := exec_op (SDelEdges ts) s in uncovered s (fst r) (snd r) = [].
+Proof.
+  intros s ts. cbn [exec_op].
+  destruct (fold_covers sdel_edge1 (fun _ _ => True)) with (xs := ts) (s := s) (ms := @nil lkey) as [new [E C]].
+  - intros s0 ms x _. apply sdel_edge1_covers.
+  - intros s0 ms x. reflexivity.
+  - induction ts as [|x t IH] in s |- *; cbn [pall]; auto.
+  - apply uncovered_intro. rewrite E. exact C.
+Qed.
+
+(* the remaining local writes.  A reference added through a mutation: always covers *)
+Theorem add_ref_covers : forall s src ent dest sig,
+  let r := exec_op (LAddRef src ent dest sig) s in uncovered s (fst r) (snd r) = [].
+Proof.
+  intros s src ent dest sig. cbn [exec_op]. destruct (find_node s src ent) as [p|] eqn:Hf.
+  2: { cbn [fst snd]. apply uncovered_intro. reflexivity. }
+  destruct (find_node s dest ent) as [d|].
+  2: { cbn [fst snd]. apply uncovered_intro. reflexivity. }
+  destruct (existsb (edge_is src the_label dest) (edges s)).
+  { cbn [fst snd]. apply uncovered_intro. reflexivity. }
+  cbn [fst snd]. apply uncovered_intro. intros k Hk. apply key_mem_app_false in Hk as [_ Hk].
+  unfold find_node in Hf. pose proof (find_some _ _ Hf) as [_ Hp].
+  apply andb_true_iff in Hp as [_ He]. apply N.eqb_eq in He.
+  unfold content, sigs. cbn [nodes ndels edels set_tables]. f_equal. f_equal. f_equal. f_equal.
+  eapply replace_first_filter; [exact Hf | |].
+  - unfold node_key. rewrite He. destruct (n_room p) as [r|]; [|reflexivity]. cbn [okey_is].
+    apply key_mem_cons_false in Hk as [_ Hk]. apply key_mem_cons_false in Hk as [Hk _]. exact Hk.
+  - unfold node_key; cbn [n_room n_ent n_mdate]. destruct (n_room p) as [r|]; [|reflexivity]. cbn [okey_is].
+    apply key_mem_cons_false in Hk as [Hk _]. exact Hk.
+Qed.
+(* a local deletion covers when the id names one stored row (ids are unique: Node::delete removes by id) *)
+Theorem local_delete_covers : forall s id ent tsig,
+  (forall x, In x (nodes s) -> n_id x = id -> find_node s id ent = Some x) ->
+  let r := exec_op (LDelNode id ent tsig) s in uncovered s (fst r) (snd r) = [].
+Proof.
+  intros s id ent tsig Huniq. cbn [exec_op]. destruct (find_node s id ent) as [n|] eqn:Hf.
+  2: { cbn [fst snd]. apply uncovered_intro. reflexivity. }
+  unfold find_node in Hf. pose proof (find_some _ _ Hf) as [_ Hp].
+  apply andb_true_iff in Hp as [_ He]. apply N.eqb_eq in He.
+  assert (Hnodes : forall k, okey_is (node_key n) k = false ->
+            filter (fun x => okey_is (node_key x) k) (filter (fun x => negb (N.eqb (n_id x) id)) (nodes s))
+            = filter (fun x => okey_is (node_key x) k) (nodes s)).
+  { intros k Hk. apply filter_filter_same. intros x Hin Hx.
+    destruct (N.eqb (n_id x) id) eqn:E; [|reflexivity]. exfalso. apply N.eqb_eq in E.
+    pose proof (Huniq x Hin E) as U. unfold find_node in U. try rewrite Hf in U. inversion U; subst x. congruence. }
+  destruct (n_room n) as [r|] eqn:Er.
+  - cbn [fst snd]. apply uncovered_intro. intros k Hk.
+    apply key_mem_cons_false in Hk as [Hold Hk]. apply key_mem_cons_false in Hk as [Hnow _].
+    unfold content, sigs. cbn [nodes ndels edels set_tables]. f_equal. f_equal; [|f_equal].
+    + f_equal. apply put_ndel_sigs. exact Hnow.
+    + f_equal. apply Hnodes. unfold node_key. rewrite Er, He. exact Hold.
+  - cbn [fst snd]. apply uncovered_intro. intros k _.
+    unfold content, sigs. cbn [nodes ndels edels set_tables]. f_equal. f_equal. f_equal. f_equal.
+    apply Hnodes. unfold node_key. rewrite Er. reflexivity.
+Qed.
+Theorem tick_covers : forall s t, let r := exec_op (Tick t) s in uncovered s (fst r) (snd r) = [].
+Proof. intros s t. cbn [exec_op fst snd]. apply uncovered_intro. reflexivity. Qed.
+
+(* every write kind, any state: it marks every key whose content it changes, inside the envelope
+   (a local deletion names one stored row; no edge tombstone is already dated at the instant of a
+   local reference deletion) *)
+Definition envelope (o : op) (s : state) : Prop :=
+  match o with
+  | LDelNode id ent _ => forall x, In x (nodes s) -> n_id x = id -> find_node s id ent = Some x
+  | LDelRef _ _ _ _ _ => forall d, In d (edels s) -> ed_date d <> now s
+  | _ => True
+  end.
+Theorem all_writes_cover : forall o s, envelope o s ->
+  let r := exec_op o s in uncovered s (fst r) (snd r) = [].
+Proof.
+  intros o s H. destruct o.
+  - apply tick_covers.
+  - apply local_create_covers.
+  - apply local_update_covers.
+  - apply add_ref_covers.
+  - apply local_delete_covers. exact H.
+  - apply ref_deletion_covers. exact H.
+  - apply sync_update_covers.
+  - apply tombstone_covers.
+  - apply edge_tombstone_covers.
+Qed.
+
+(* ------------------------------------------------------------------ C09 without a class hypothesis *)
+Fixpoint batch_env (s : state) (b : list msg) : Prop :=
+  match b with
+  | [] => True
+  | MOp o :: t => envelope o s /\ batch_env (fst (exec_op o s)) t
+  | MCompute :: t => batch_env (fst (compute s)) t
+  end.
+Lemma batch_env_covered : forall b s, batch_env s b -> batch_covered s b.
+Proof.
+  induction b as [|m t IH]; intros s H; [exact I|]. destruct m as [o|]; cbn [batch_env batch_covered msg_covered msg_state] in *.
+  - destruct H as [He Ht]. split; [apply (all_writes_cover o s He) | apply IH; exact Ht].
+  - split; [exact I | apply IH; exact H].
+Qed.
+Fixpoint items_env (s : state) (items : list c09item) : Prop :=
+  match items with
+  | [] => True
+  | IBatch b :: t => batch_env s b /\ items_env (fst (exec_batch (s, []) b)) t
+  | ICheck :: t => items_env s t
+  end.
+Lemma items_env_covered : forall items s, items_env s items -> items_covered s items.
+Proof.
+  induction items as [|i t IH]; intros s H; [exact I|]. destruct i as [b|]; cbn [items_env items_covered] in *.
+  - destruct H as [Hb Ht]. split; [apply batch_env_covered; exact Hb | apply IH; exact Ht].
+  - apply IH; exact H.
+Qed.
+(* count and daily hash are the recount, for every history inside the envelope, wherever nothing is pending *)
+Theorem daily_holds_env : forall t0 items, items_env (init t0) items ->
+  no_pending (CDaily t0 items) = true -> spec_C09 (CDaily t0 items) (run_C09 (CDaily t0 items)) = true.
+Proof.
+  intros t0 items He Hclean. unfold spec_C09, run_C09. rewrite dec_dumps_enc.
+  apply andb_true_iff; split.
+  - apply Nat.eqb_eq. unfold run_dumps, run_items. rewrite run_items_checks. reflexivity.
+  - apply forallb_forall. intros d Hd. unfold run_dumps, run_items in Hd. cbn [case_t0 case_items] in Hd.
+    destruct (fold_left run_item items (init t0, [])) as [s' ds'] eqn:E. cbn [snd] in Hd.
+    destruct (run_items_inv _ _ _ _ _ (LogInv_init _) (items_env_covered _ _ He) E) as [_ B].
+    destruct (B d Hd) as [[]|[s1 [Hi Heq]]]. subst d.
+    apply daily_ok_of_inv; [exact Hi|]. intros l Hin.
+    unfold no_pending in Hclean. rewrite forallb_forall in Hclean.
+    assert (Hd' : In (dump_of s1) (run_dumps (CDaily t0 items))).
+    { unfold run_dumps, run_items. cbn [case_t0 case_items]. rewrite E. exact Hd. }
+    specialize (Hclean _ Hd'). rewrite forallb_forall in Hclean. specialize (Hclean (raw_of l)).
+    cbn [dump_of d_log] in Hclean. specialize (Hclean (in_map raw_of _ _ Hin)).
+    unfold raw_of in Hclean; cbn [rr_dirty] in Hclean. destruct (l_dirty l); [discriminate | reflexivity].
 Qed.
